@@ -120,6 +120,9 @@ fn indexed2(compressed: bool) {
 #[kani::proof]
 #[kani::unwind(8)]
 #[kani::stub(alloc::fmt::format, crate::vklib::empty_format)]
+#[kani::stub(std::collections::HashMap::insert, crate::vklib::hm_insert)]
+#[kani::stub(crate::palette::ColorPalette::color, crate::vklib::side_color)]
+#[kani::stub(std::collections::HashMap::len, crate::vklib::hm_len)]
 fn c06_q_indexed_raw() {
     indexed2(false);
 }
@@ -128,6 +131,9 @@ fn c06_q_indexed_raw() {
 #[kani::stub(alloc::fmt::format, crate::vklib::empty_format)]
 #[kani::stub(crate::reader::AseReader::unzip, crate::vklib::stub_unzip_identity)]
 #[kani::stub(crate::vklib::stubs_probe, crate::vklib::stubs_probe_stubbed)]
+#[kani::stub(std::collections::HashMap::insert, crate::vklib::hm_insert)]
+#[kani::stub(crate::palette::ColorPalette::color, crate::vklib::side_color)]
+#[kani::stub(std::collections::HashMap::len, crate::vklib::hm_len)]
 fn c06_t_indexed_compressed() {
     indexed2(true);
 }
